@@ -11,7 +11,7 @@ from props import fam_map as F
 FIELDS = ['nx', 'ny', 'nz', 'mode', 'sx', 'sy', 'sz', 'mx', 'my', 'mz', 'mapc', 'mapr', 'maps', 'ispg']
 
 
-MANIFEST = {'technique': 'Coq proof (CCP4 set-up index bounds from exactly the checks the code makes, symmetry expansion in bounds for every table row, gzip growth loop terminates, MemoryStream never past the end; snapshot behaviour refuted with witnesses) + outcome-class differential check + sanitizer/timeout runs on corrupted and truncated files', 'text': 'Theorems (repaired code): for every header and data vector the re-indexing of setup() in every mode returns or throws and never indexes outside the grid, assuming only the tests the code itself makes; symmetrize_using_ops is in bounds for every table row on an accepted grid; the gzip buffer-growth loop finishes within `total` iterations with an exception or exactly `total` bytes; the MemoryStream cursor stays in [0, size] and every copied range is inside the buffer over arbitrary operation sequences. The snapshot versions are refuted by vm_compute witnesses (zero sampling word -> remainder by zero, wrapped point counts, ISIZE = 0 non-termination, skip past the end). Outcome class (OK/EXC) of gemmi vs model for 14 header words x boundary values x modes x Ccp4<float>/<int8_t>; truncation at every offset through memory/file/gzip; random multi-word corruption (ASan+UBSan build and a UBSan+RLIMIT_AS build with per-case alarm). MTZ: valid merged / unmerged-with-batch-headers / sample / empty files written by gemmi, every integer field of the text header set to boundary values, totals and their parts changed consistently, prologue words, truncation, random record corruption, with and without data, through memory / file / gzip, under ASan+UBSan with alarm: OK|EXC required. The MTZ reader skeleton is NOT modelled (sanitizer runs only).', 'note': 'Trusted: Coq kernel; extraction; harness; sanitizers. No axioms. zlib, allocation failure and real pointer overflow are outside the model.'}
+MANIFEST = {'technique': 'Coq proof (CCP4 set-up index bounds from exactly the checks the code makes, symmetry expansion in bounds for every table row, gzip growth loop terminates, MemoryStream never past the end; snapshot behaviour refuted with witnesses) + outcome-class differential check + sanitizer/timeout runs on corrupted and truncated files', 'text': 'Theorems (repaired code): for every header and data vector the re-indexing of setup() in every mode returns or throws and never indexes outside the grid, assuming only the tests the code itself makes; symmetrize_using_ops is in bounds for every table row on an accepted grid; the gzip buffer-growth loop finishes within `total` iterations with an exception or exactly `total` bytes; the MemoryStream cursor stays in [0, size] and every copied range is inside the buffer over arbitrary operation sequences. For ANY 20 prologue bytes of an MTZ file an accepted header offset converts to a word count and a byte position without leaving int64 (byte-level model Mtz/Data.v, compared with read_first_bytes of gemmi). The snapshot versions are refuted by vm_compute witnesses (zero sampling word -> remainder by zero, wrapped point counts, ISIZE = 0 non-termination, skip past the end, MTZ header offset 2^62+21). Outcome class (OK/EXC) of gemmi vs model for 14 header words x boundary values x modes x Ccp4<float>/<int8_t>; truncation at every offset through memory/file/gzip; random multi-word corruption (ASan+UBSan build and a UBSan+RLIMIT_AS build with per-case alarm). MTZ: valid merged / unmerged-with-batch-headers / sample / empty files written by gemmi, every integer field of the text header set to boundary values, totals and their parts changed consistently, prologue words, truncation, random record corruption, with and without data, through memory / file / gzip, under ASan+UBSan with alarm: OK|EXC required. Beyond its first 20 bytes the MTZ reader is NOT modelled here (sanitizer runs only; the header-record parsers are modelled for C08).', 'note': 'Trusted: Coq kernel; extraction; harness; sanitizers. No axioms. zlib, allocation failure and real pointer overflow are outside the model.'}
 
 def setup_line(T, f, swap, smode, dflt, seed):
     return 'setup\t%s %s %d %d %d %d' % (T, ' '.join(str(f[k]) for k in FIELDS), swap, smode, dflt, seed)
@@ -174,6 +174,13 @@ def gen_mtz_cases(rng, quick, hm):
                 if quick and wi > 3 and vi % 5:
                     continue
                 lines.append('mtz_word\t%d %d %d %d' % (v, wi, vi, rng.choice([0, 1])))
+        true_off = (size - 80) // 4   # not exact (headers follow) - only a scale for the neighbourhood values
+        for off in [0, 1, 20, 21, 22, -1, -2, 2 ** 31 - 1, 2 ** 31, 2 ** 32, 2 ** 32 + 21, 2 ** 61 - 1, 2 ** 61, 2 ** 61 + 1, 2 ** 62,
+                    2 ** 62 + 21, 2 ** 62 + 22, 2 ** 63 - 1, -2 ** 63, -2 ** 63 + 1, 3 * 2 ** 61 + 21, true_off, true_off + 21] + \
+                   [rng.getrandbits(64) - 2 ** 63 for _ in range(4 if quick else 400)] + \
+                   [rng.randint(21, true_off + 40) for _ in range(4 if quick else 400)]:
+            for mode in (0, 1):
+                lines.append('mtz_off64\t%d %d %d' % (v, off, mode))
         for _ in range(150 if quick else 20000):
             lines.append('mtz_rand\t%d %d %d %d' % (v, rng.randint(0, 10 ** 9), rng.choice([1, 1, 2, 3, 6]), rng.choice([0, 1, 1, 1, 3, 5])))
     return lines
@@ -238,6 +245,10 @@ def run(chk):
     if oom:
         res4 = vlib.correspond(chk, F.harness_mtz_ub(), None, [c[0] for c in oom], timeout=1500)
         report(chk, res4, 'h_mtzfuzz_ub')
+    # the first 20 bytes (signature, byte-order stamp, 32/64-bit header offset) against the byte-level model Mtz/Data.v
+    from props import fam_mtz, C08
+    res5 = vlib.correspond(chk, fam_mtz.harness(), fam_mtz.driver(), C08.first_bytes_cases(rng, 400 if quick else 20000), timeout=600)
+    report(chk, res5, 'h_mtz')
     import glob, os
     for f in glob.glob('/tmp/gv_map_*') + glob.glob('/tmp/verif_mtzfuzz_*'):      # scratch files left behind by cases that crashed or timed out
         try:
@@ -258,9 +269,14 @@ def run(chk):
                     getattr(chk, 'coq_log_tail', ''), found_input=False)
 
 
+def fam_mtz_harness():
+    from props import fam_mtz
+    return fam_mtz.harness()
+
+
 def replay(chk, path):
     r = json.load(open(path))['replay']
-    h = F.harness_mtz() if r.get('harness') == 'h_mtzfuzz' else F.harness_mtz_ub() if r.get('harness') == 'h_mtzfuzz_ub' else F.harness() if r.get('harness') != 'h_map_ub' else F.harness_ub()
+    h = fam_mtz_harness() if r.get('harness') == 'h_mtz' else F.harness_mtz() if r.get('harness') == 'h_mtzfuzz' else F.harness_mtz_ub() if r.get('harness') == 'h_mtzfuzz_ub' else F.harness() if r.get('harness') != 'h_map_ub' else F.harness_ub()
     rc, out, err = vlib.run_lines(h, [], inp=(r['line'] + '\n').encode(), timeout=120)
     print('\n'.join(out), err[-2000:], 'rc=%s' % rc)
     if r.get('harness', '').startswith('h_mtzfuzz'):
@@ -268,5 +284,8 @@ def replay(chk, path):
             chk.violate('crash', 'replayed input crashes', err[-2000:])
         return
     d = F.driver()
+    if r.get('harness') == 'h_mtz':
+        from props import fam_mtz
+        d = fam_mtz.driver()
     rc, out2, err2 = vlib.run_lines(d, [], inp=('\n'.join(out) + '\n').encode())
     print('\n'.join(out2))
